@@ -15,6 +15,9 @@ DEEP = [
     ('template', 'start = N("a")\nN(p) = ("(" >> N(p) << ")") | p\n'),
     ('class', 'start = B\nclass B {\n  open: "("\n  inner: B | "a"\n  close: ")"\n}\n'),
     ('sequence', 'start = S\nS = ["(", S | "a", ")"]\n'),
+    # a deeply nested VALUE bound by let and mentioned inside code that is spilled into a helper function
+    ('letdeep', 'start = let x = S in ' + '[' * 22 + '`x`' + ']' * 22 + '\nS = ["(", S | "a", ")"]\n'),
+    ('letset', 'start = let x = (S |> `lambda v_: {str(v_)}`) in ' + '[' * 22 + '`sorted(x)`' + ']' * 22 + '\nS = /[()a]+/\n'),
 ]
 
 
@@ -25,7 +28,7 @@ def deep_worker(case):
     n = case['n']
     mod = sourcer.Grammar(case['desc'])
     text = '(' * n + 'a' + ')' * n
-    if case['kind'] in ('class', 'sequence'):
+    if case['kind'] in ('class', 'sequence', 'letdeep', 'letset'):
         text = '(' * n + '(a)' + ')' * n
     rt.drain()
     rt.enable(bool(case.get('trace')))
@@ -35,11 +38,19 @@ def deep_worker(case):
                 v = mod.parse(text)
                 shape = ['ok']
                 d = 0
+                if case['kind'] in ('letdeep', 'letset'):
+                    w = 0
+                    while isinstance(v, list) and len(v) == 1:     # the 22 transparent layers
+                        v = v[0]
+                        w += 1
+                    shape.append(w)
+                    if case['kind'] == 'letset':
+                        v = 'a' if v == text else v
                 while True:
                     if case['kind'] == 'class' and type(v).__name__ == 'B':
                         v = v.inner
                         d += 1
-                    elif case['kind'] == 'sequence' and isinstance(v, list) and len(v) == 3:
+                    elif case['kind'] in ('sequence', 'letdeep') and isinstance(v, list) and len(v) == 3:
                         v = v[1]
                         d += 1
                     else:
@@ -91,6 +102,10 @@ def run(chk):
         chk.count(['deep', c['kind'], c['n']], True)
         chk.traces += 1
         want = ['ok', (c['n'] + 1) if c['kind'] in ('class', 'sequence') else 0, 'a']
+        if c['kind'] == 'letdeep':
+            want = ['ok', 22, c['n'] + 1, 'a']
+        if c['kind'] == 'letset':
+            want = ['ok', 23, 0, 'a']          # 22 layers + the one-element list sorted(x)
         if rec['obs'] != want:
             chk.violation('input nested %d deep through a %s: expected %s, observed %s'
                           % (c['n'], c['kind'], want, rec['obs']),
